@@ -65,6 +65,17 @@ def r_c14(toks):
     return f"{'run_pes' if toks[0] == 'PES' else 'run_ppc'} false {hex_to_coq(toks[1])}"
 
 PROPS = {
+    "C16": dict(
+        props_files=["Props/C16.v"],
+        suites=["C16"],
+        render=r_stream,
+        rule="PAT: every body length 0..=1012 with random entries (program_number 0 in a fifth of them, reserved bits either "
+             "way); PMT: every body length 0..=1012 with program_info_length in {0, fit-1, fit, fit+1, 4095, random} and the first "
+             "ES_info_length steered the same way; builder-made PMTs with typed descriptors, 0..5 streams, random tails and "
+             "truncation; distinct = distinct case lines; every accessor of every entry is evaluated",
+        trusted=["13818-1 Tables 2-30 and 2-33 as transcribed in coq/Spec/TablesSpec.v"],
+        assumptions=["input bytes are < 256"],
+    ),
     "C17": dict(
         props_files=["Props/C17.v"],
         suites=["C17"],
